@@ -174,6 +174,8 @@ impl PersisterTask {
         while let Ok(request) = receiver.recv_async().await {
             match request {
                 PersisterTaskCommand::WriteRequest(batch_to_write) => {
+                    #[cfg(feature = "iggy_verif")]
+                    crate::verif::sched("persister-write").await;
                     match Self::write_with_retries(
                         &mut file,
                         &file_path,
